@@ -1309,7 +1309,8 @@ RULE_C19 = (
     '--indent_after_first, --compact and pairs / triples) x 5 (text, channels, encoding) assignments each in the '
     'quick tier (110 cases, spread between the library cases), all combinations in the thorough tier.')
 
-_C19_ENCODINGS = ('utf-8', 'latin-1', 'gbk', 'cp1251', 'utf-16')
+# (the last three are not ASCII-compatible and need no byte order mark: pure-ASCII SQL has an all-ASCII byte image there)
+_C19_ENCODINGS = ('utf-8', 'latin-1', 'gbk', 'cp1251', 'utf-16', 'utf-16-le', 'utf-32-be', 'utf-7')
 _C19_FIXED = [
     '', ' ', '\n', '\r\n', ';', ';;', 'select 1', 'select 1;', "select 'é'", 'select "naïve" from 業者',
     "select 'Привет' from т where ю = 1", "select '你好' as 問候", 'select 1;\r\nselect 2;\r\n', "select '\\n\xe9'",
